@@ -244,4 +244,181 @@ theorem setBit_getLsbD (u : U128) (i : Int) (b : Nat) (j : Nat) :
         by_cases hji : j = i.toNat
         all_goals (try simp [hji, h0, h1, hb])
         all_goals (try omega)
+/-! ### Len64 / LeadingZeros64 -/
+theorem len64_le (x : W) : len64 x ≤ 64 := by
+  unfold len64; split
+  · omega
+  · rename_i h
+    have h1 : 2 ^ x.toNat.log2 ≤ x.toNat := Nat.log2_self_le h
+    have h2 : x.toNat < 2^64 := x.isLt
+    have : 2 ^ x.toNat.log2 < 2 ^ 64 := Nat.lt_of_le_of_lt h1 h2
+    have := (Nat.pow_lt_pow_iff_right (a := 2) (by omega)).mp this
+    omega
+theorem len64_upper (x : W) : x.toNat < 2 ^ len64 x := by
+  unfold len64; split
+  · omega
+  · exact Nat.lt_log2_self
+theorem len64_lower (x : W) (h : x.toNat ≠ 0) : 2 ^ (len64 x - 1) ≤ x.toNat := by
+  unfold len64; rw [if_neg h]; simpa using Nat.log2_self_le h
+theorem len64_zero (x : W) : len64 x = 0 ↔ x.toNat = 0 := by
+  unfold len64; split <;> simp_all
+
+theorem toNat_of_hi_zero (u : U128) (h : u.hi = 0#64) : u.toNat = u.lo.toNat := by
+  unfold toNat; rw [h]; have : (0#64).toNat = 0 := rfl; rw [this]; omega
+
+theorem hi_ne_zero (u : U128) : u.hi ≠ 0#64 ↔ u.toNat ≥ 2^64 := by
+  have := u.hi.isLt; have := u.lo.isLt
+  rw [ne_eq, w_eq_iff, BitVec.toNat_ofNat]; unfold toNat; omega
+
+/-- **BitLen** is the bit length of the value -/
+theorem bitLen_upper (u : U128) : u.toNat < 2 ^ u.bitLen := by
+  have := u.hi.isLt; have := u.lo.isLt
+  unfold bitLen; split
+  · have h := len64_upper u.hi
+    rw [Nat.pow_add]; unfold toNat
+    have : u.hi.toNat + 1 ≤ 2 ^ len64 u.hi := h
+    have := Nat.mul_le_mul_right (2^64) this
+    omega
+  · rename_i h
+    have h' : u.hi = 0#64 := by simpa using h
+    rw [toNat_of_hi_zero u h']; exact len64_upper u.lo
+theorem bitLen_lower (u : U128) (h : u.toNat ≠ 0) : 2 ^ (u.bitLen - 1) ≤ u.toNat := by
+  have := u.hi.isLt; have := u.lo.isLt
+  unfold bitLen; split
+  · rename_i hh
+    have hz : u.hi.toNat ≠ 0 := by
+      intro e; apply hh; apply BitVec.eq_of_toNat_eq; simpa using e
+    have h1 := len64_lower u.hi hz
+    have h2 : len64 u.hi ≠ 0 := fun e => hz ((len64_zero _).mp e)
+    have e : len64 u.hi + 64 - 1 = (len64 u.hi - 1) + 64 := by omega
+    rw [e, Nat.pow_add]; unfold toNat
+    exact Nat.le_trans (Nat.mul_le_mul_right (2^64) h1) (Nat.le_add_right _ _)
+  · rename_i hh
+    have h' : u.hi = 0#64 := by simpa using hh
+    rw [toNat_of_hi_zero u h'] at h ⊢
+    exact len64_lower u.lo h
+theorem bitLen_le (u : U128) : u.bitLen ≤ 128 := by
+  unfold bitLen; have := len64_le u.hi; have := len64_le u.lo; split <;> omega
+
+/-- **LeadingZeros** = 128 − BitLen -/
+theorem leadingZeros_eq (u : U128) : u.leadingZeros = 128 - u.bitLen := by
+  unfold leadingZeros bitLen clz
+  have := len64_le u.hi; have := len64_le u.lo
+  by_cases h : u.hi = 0#64
+  · simp only [h, if_true, ne_eq, not_true, if_false]; omega
+  · simp only [h, if_false, ne_eq, not_false_eq_true, if_true]; omega
+
+/-! ### TrailingZeros64 -/
+theorem ctzAux_spec : ∀ (f x : Nat), x ≠ 0 → x < 2^f →
+    x.testBit (ctzAux f x) = true ∧ ∀ j, j < ctzAux f x → x.testBit j = false := by
+  intro f
+  induction f with
+  | zero => intro x h0 h1; simp at h1; omega
+  | succ f ih =>
+    intro x h0 h1
+    unfold ctzAux
+    by_cases hx : x % 2 = 1
+    · rw [if_pos hx]
+      refine ⟨?_, fun j hj => by omega⟩
+      rw [Nat.testBit_zero]; simp [hx]
+    · rw [if_neg hx]
+      have hx2 : x / 2 ≠ 0 := by omega
+      have hx3 : x / 2 < 2^f := by rw [Nat.pow_succ] at h1; omega
+      obtain ⟨a, b⟩ := ih (x/2) hx2 hx3
+      refine ⟨?_, ?_⟩
+      · rw [Nat.testBit_succ]; exact a
+      · intro j hj
+        cases j with
+        | zero => rw [Nat.testBit_zero]; simp; omega
+        | succ j => rw [Nat.testBit_succ]; exact b j (by omega)
+theorem ctzAux_lt : ∀ (f x : Nat), x ≠ 0 → x < 2^f → ctzAux f x < f := by
+  intro f
+  induction f with
+  | zero => intro x h0 h1; simp at h1; omega
+  | succ f ih =>
+    intro x h0 h1
+    unfold ctzAux
+    by_cases hx : x % 2 = 1
+    · rw [if_pos hx]; omega
+    · rw [if_neg hx]
+      have hx2 : x / 2 ≠ 0 := by omega
+      have hx3 : x / 2 < 2^f := by rw [Nat.pow_succ] at h1; omega
+      have := ih (x/2) hx2 hx3; omega
+
+theorem ctz_spec (x : W) (h : x.toNat ≠ 0) :
+    ctz x < 64 ∧ x.toNat.testBit (ctz x) = true ∧ ∀ j, j < ctz x → x.toNat.testBit j = false := by
+  unfold ctz; rw [if_neg h]
+  exact ⟨ctzAux_lt 64 _ h x.isLt, ctzAux_spec 64 _ h x.isLt⟩
+
+theorem lo_testBit (u : U128) (j : Nat) (h : j < 64) : u.toNat.testBit j = u.lo.toNat.testBit j := by
+  rw [testBit_eq, getLsbD_bv, if_pos h]; rfl
+theorem hi_testBit (u : U128) (j : Nat) : u.toNat.testBit (j + 64) = u.hi.toNat.testBit j := by
+  rw [testBit_eq, getLsbD_bv, if_neg (by omega)]; simp; rfl
+
+/-- **TrailingZeros**: 128 for zero, otherwise the index of the lowest set bit -/
+theorem trailingZeros_zero (u : U128) (h : u.toNat = 0) : u.trailingZeros = 128 := by
+  have := u.hi.isLt; have := u.lo.isLt
+  unfold toNat at h
+  have h1 : u.hi = 0#64 := BitVec.eq_of_toNat_eq (by simp only [BitVec.toNat_ofNat]; omega)
+  have h2 : u.lo = 0#64 := BitVec.eq_of_toNat_eq (by simp only [BitVec.toNat_ofNat]; omega)
+  simp [trailingZeros, h1, h2, ctz]
+theorem trailingZeros_spec (u : U128) (h : u.toNat ≠ 0) :
+    u.trailingZeros < 128 ∧ u.toNat.testBit u.trailingZeros = true ∧
+      ∀ j, j < u.trailingZeros → u.toNat.testBit j = false := by
+  have := u.hi.isLt; have := u.lo.isLt
+  unfold trailingZeros
+  by_cases hl : u.lo = 0#64
+  · rw [if_pos hl]
+    have hl0 : u.lo.toNat = 0 := by rw [hl]; rfl
+    have hh : u.hi.toNat ≠ 0 := by unfold toNat at h; omega
+    obtain ⟨a, b, c⟩ := ctz_spec u.hi hh
+    refine ⟨by omega, ?_, ?_⟩
+    · rw [hi_testBit]; exact b
+    · intro j hj
+      by_cases hj64 : j < 64
+      · rw [lo_testBit _ _ hj64, hl0]; simp
+      · have : j = (j - 64) + 64 := by omega
+        rw [this, hi_testBit]; exact c _ (by omega)
+  · rw [if_neg hl]
+    have hl0 : u.lo.toNat ≠ 0 := by
+      intro e; apply hl; apply BitVec.eq_of_toNat_eq; simpa using e
+    obtain ⟨a, b, c⟩ := ctz_spec u.lo hl0
+    refine ⟨by omega, ?_, ?_⟩
+    · rw [lo_testBit _ _ a]; exact b
+    · intro j hj; rw [lo_testBit _ _ (by omega)]; exact c j hj
+
+
+/-! ### OnesCount64 -/
+theorem popAux_eq : ∀ (f x : Nat), popAux f x = (List.range f).countP (fun i => x.testBit i) := by
+  intro f
+  induction f with
+  | zero => intro x; rfl
+  | succ f ih =>
+    intro x
+    rw [List.range_succ_eq_map, List.countP_cons, List.countP_map]
+    unfold popAux
+    rw [ih (x / 2)]
+    have e : ((fun i => x.testBit i) ∘ Nat.succ) = (fun i => (x / 2).testBit i) := by
+      funext i; simp [Nat.testBit_succ]
+    rw [e, Nat.testBit_zero]
+    have : x % 2 = 0 ∨ x % 2 = 1 := by omega
+    rcases this with h | h <;> simp [h] <;> omega
+theorem range128 : List.range 128 = List.range 64 ++ (List.range 64).map (64 + ·) :=
+  List.range_add (n := 64) (m := 64)
+theorem t1 (u : U128) : u.onesCount = (List.range 64).countP (fun i => u.hi.toNat.testBit i) + (List.range 64).countP (fun i => u.lo.toNat.testBit i) := by
+  unfold onesCount popcount
+  rw [popAux_eq, popAux_eq]
+theorem b (u : U128) (i : Nat) : u.hi.toNat.testBit i = u.toNat.testBit (64 + i) := by
+  rw [Nat.add_comm, hi_testBit]
+theorem b2 (u : U128) : (List.range 64).countP (fun i => u.hi.toNat.testBit i) =
+      (List.range 64).countP (fun i => u.toNat.testBit (64 + i)) := by
+  simp only [b]
+theorem onesCount_eq (u : U128) : u.onesCount = (List.range 128).countP (fun i => u.toNat.testBit i) := by
+  have a : (List.range 64).countP (fun i => u.lo.toNat.testBit i) = (List.range 64).countP (fun i => u.toNat.testBit i) := by
+    apply List.countP_congr
+    intro i hi
+    simp only [List.mem_range] at hi
+    simp only [lo_testBit u i hi]
+  rw [t1, range128, List.countP_append, List.countP_map, a, b2, Nat.add_comm]
+  rfl
 end U128
